@@ -152,6 +152,11 @@ class G:
         return {"t": ys, "v": [v() for _ in ys]}
 
 
+def par_sources_links(links, par):
+    """(source, destination) compartment names of the links driven by a parameter"""
+    return [(a, b) for (a, b), v in links.items() if v and v != ">" and par in v]
+
+
 def _expr(g, names, depth, signed=False):
     """non-negative (unless signed) arithmetic expression over names; denominators are bounded away from 0 except in the capped "rawdiv" form"""
     d = g.draw
@@ -532,7 +537,13 @@ def model_specs(draw, profile=None):
         k = g.pick(["flowsum", "expr", "agg", "agg"] if n_pops >= 2 else ["flowsum", "expr"])
         if k == "flowsum" and tr_pars:
             a = g.pick(tr_pars)
-            nm = new_par(None, fn="%s:flow + 0" % a if False else "%s:flow" % a, db=False, _output=True)
+            sel = "%s:flow" % a
+            if g.coin(0.5):
+                # the other documented ways of naming flows: by the compartments they connect, optionally restricted to a parameter
+                (ls, ld) = g.pick(par_sources_links(links, a))
+                sel = g.pick(["%s:" % ls, ":%s" % ld, "%s:%s" % (ls, ld), "%s:%s:%s" % (ls, ld, a), "::%s" % a, ":%s:%s" % (ld, a), "%s::%s" % (ls, a)])
+                g.labels.add("par:flow-output-by-compartments")
+            nm = new_par(None, fn=sel, db=False, _output=True)
             g.labels.add("par:flow-output")
         elif k == "expr":
             nm = new_par(None, fn=_expr(g, names, 2), db=False, _output=True)
